@@ -149,7 +149,9 @@ def key(b):
 
 
 def execute(sets, d, timeout=1500):
-    """sets: {binding: behaviours}; one go test process runs every binding asked for"""
+    """sets: {binding: behaviours}; one go test process runs the in-process bindings, a second one the real one-node
+    server (a request the FSM cannot apply makes Server.Apply panic in a Raft goroutine and takes the process down:
+    that is recorded as a Crash line and judged, not an infrastructure failure)"""
     env, traces = {}, {}
     for binding, behaviours in sets.items():
         stim = os.path.join(d, 'stim-%s.json' % binding)
@@ -159,12 +161,27 @@ def execute(sets, d, timeout=1500):
             core.log('stimuli at', stim)
         env['VERIF_STIMULI_' + BINDINGS[binding][1]] = stim
         env['VERIF_TRACE_OUT_' + BINDINGS[binding][1]] = traces[binding]
-    tests = '|'.join(BINDINGS[b][0] for b in sets)
+    inproc = [b for b in sets if b != 'race']
+    tests = '|'.join(BINDINGS[b][0] for b in inproc)
     subs = sorted({s for b in sets for s in BINDINGS[b][2]})
     rc, out, wall = core.go_test('server', '^(%s)$' % tests, env, timeout=timeout, subs=subs)
     core.log('C12 go test wall %.1fs: %s' % (wall, out.strip().splitlines()[-1] if out.strip() else ''))
-    if rc != 0 or not all(os.path.exists(p) for p in traces.values()):
+    if rc != 0 or not all(os.path.exists(traces[b]) for b in inproc):
         raise core.Inconclusive('harness failed rc=%s: %s' % (rc, out[-3000:]))
+    if 'race' in sets:
+        rc, out, wall = core.go_test('server', '^%s$' % BINDINGS['race'][0], env, timeout=600, subs=subs)
+        core.log('C12 real-server go test wall %.1fs rc=%s' % (wall, rc))
+        if rc != 0:
+            import json
+            import re
+            m = re.search(r'^panic: (.*)$', out, re.M)
+            lines = core.read_ndjson(traces['race']) if os.path.exists(traces['race']) else []
+            if not m or 'INCONCLUSIVE' in out or not lines:
+                raise core.Inconclusive('real-server harness failed rc=%s: %s' % (rc, out[-3000:]))
+            last = lines[-1]
+            crash = dict(last, a='Crash', args={'panic': m.group(1)[:300]}, obs=dict(last['obs'], a='Crash', err='crash'))
+            with open(traces['race'], 'a') as fh:
+                fh.write(json.dumps(crash) + '\n')
     return traces
 
 
@@ -192,7 +209,39 @@ def judge(rep, behaviours, res, binding):
 BINDINGS = {
     'direct': ('TestVerifGroupsDirect', 'DIRECT', ['c12']),
     'server': ('TestVerifGroupsFSM', 'FSM', ['c06']),
+    'race': ('TestVerifGroupsRealRace', 'RACE', ['c06']),
 }
+
+
+def race_behaviours(rng, n, first_id):
+    """behaviours for the real one-node server: requests through the metadata leader API (raftNode.applyOperation:
+    mutex, barrier, precondition, propose), with one step in which two requests are fired at the same time"""
+    cs = ['c1', 'c2', 'c3', 'c4']
+    rng.shuffle(cs)
+    a, b, c = cs[:3]
+    n1, n2 = rng.choice([3, 4]), rng.choice([2, 3])
+    templates = [
+        # a retried join / two clients with one consumer id
+        [{'a': 'CreateStream', 's': 'sa', 'n': n1}, {'a': 'Join', 'c': a, 'streams': ['sa']},
+         {'a': 'Race', 'ops': [{'a': 'Join', 'c': b, 'streams': ['sa']}, {'a': 'Join', 'c': b, 'streams': ['sa']}]},
+         {'a': 'Join', 'c': c, 'streams': ['sa']}],
+        # a join racing the deletion of one of its streams, which is created again later
+        [{'a': 'CreateStream', 's': 'sa', 'n': n1}, {'a': 'CreateStream', 's': 'sb', 'n': n2},
+         {'a': 'Join', 'c': a, 'streams': ['sa']},
+         {'a': 'Race', 'ops': [{'a': 'Join', 'c': b, 'streams': ['sa', 'sb']}, {'a': 'DeleteStream', 's': 'sb'}]},
+         {'a': 'CreateStream', 's': 'sb', 'n': n1}, {'a': 'Join', 'c': c, 'streams': ['sa']}],
+        # a retried leave, then two different consumers joining together
+        [{'a': 'CreateStream', 's': 'sa', 'n': n1}, {'a': 'Join', 'c': a, 'streams': ['sa']},
+         {'a': 'Join', 'c': b, 'streams': ['sa']},
+         {'a': 'Race', 'ops': [{'a': 'Leave', 'c': a}, {'a': 'Leave', 'c': a}]},
+         {'a': 'Race', 'ops': [{'a': 'Join', 'c': c, 'streams': ['sa']}, {'a': 'Join', 'c': a, 'streams': ['sa']}]}],
+        # the creator's join retried (CREATE_CONSUMER_GROUP twice), then a member joining
+        [{'a': 'CreateStream', 's': 'sa', 'n': n1},
+         {'a': 'Race', 'ops': [{'a': 'Join', 'c': a, 'streams': ['sa']}, {'a': 'Join', 'c': a, 'streams': ['sa']}]},
+         {'a': 'Join', 'c': b, 'streams': ['sa']}],
+    ]
+    return [{'id': first_id + i, 'cfg': {'servers': SERVERS, 'streams': ['sa', 'sb'], 'parts': {'sa': 0, 'sb': 0}},
+             'steps': templates[i % len(templates)]} for i in range(n)]
 
 
 def run_bindings(rep, sets, d):
@@ -263,6 +312,9 @@ def run(rep, tier, seed, replay):
         sets['server'], nf = quota_cover(behaviours, 450 if quick else 5000)
         rep.cov['server_binding_features_covered'] = nf
         rep.cov['server_binding_behaviours'] = len(sets['server'])
+    if 'server' in sets:
+        sets['race'] = race_behaviours(rng, 3 if quick else 12, len(behaviours) + 100000)
+        rep.cov['real_server_race_behaviours'] = len(sets['race'])
     with core.scratch('c12') as d:
         trs = run_bindings(rep, sets, d)
     lines = sum(tr['validated'] for tr in trs.values())
